@@ -428,6 +428,13 @@ func value(r *rng.R, s *spec.Spec) any {
 	return Native(s)
 }
 
+// Embedded, when set, returns a value embedded in the derived structure v (level 0: the library container itself,
+// higher levels: intermediate user types, as far as there are any), or nil when v is not a derived structure.
+// Build does not hand such values over on its own: what the typed views do with a stored embedded value is stated by
+// no property (they hand over what is stored, Get resolves the registered pointer), so only monitors whose statement
+// covers it use this (C13: Dict / Slice hold what Get returns).
+var Embedded func(v any, level int) any
+
 // Build creates a real container from a spec through a randomly chosen construction route.
 // With r == nil the plain route (NewList(args...) / NewObject(pairs...)) is used.
 // DerivedList / DerivedObject, when set (by the monitors' package), build a derived structure: a user type that embeds a
